@@ -163,7 +163,7 @@ class Fn:
     raises: tuple = ()  # Python exception class names; () = total
     #: leading Lean arguments that are not Python arguments (opaque parameters)
     extra: tuple = ()
-    #: indices of Python arguments that must be non-empty str/bytes literals
+    #: indices (into params) of arguments that must be non-empty str/bytes literals
     nonempty_lit: tuple = ()
 
 
@@ -204,11 +204,11 @@ METHODS = {
     ("Bytes", "rfind"): Fn("Pre.rfind", [BYTES, BYTES], INT),
     ("Bytes", "startswith"): Fn("Pre.startswith", [BYTES, BYTES], BOOL),
     ("Bytes", "endswith"): Fn("Pre.endswith", [BYTES, BYTES], BOOL),
-    ("Str", "partition"): Fn("Pre.partition", [STR, STR], Tup(STR, STR, STR), nonempty_lit=(0,)),
-    ("Str", "rpartition"): Fn("Pre.rpartition", [STR, STR], Tup(STR, STR, STR), nonempty_lit=(0,)),
+    ("Str", "partition"): Fn("Pre.partition", [STR, STR], Tup(STR, STR, STR), nonempty_lit=(1,)),
+    ("Str", "rpartition"): Fn("Pre.rpartition", [STR, STR], Tup(STR, STR, STR), nonempty_lit=(1,)),
     ("Str", "lower"): Fn("Pre.lower", [STR], STR),
     ("Str", "upper"): Fn("Pre.upper", [STR], STR),
-    ("Str", "replace"): Fn("Pre.replace", [STR, STR, STR], STR, nonempty_lit=(0,)),
+    ("Str", "replace"): Fn("Pre.replace", [STR, STR, STR], STR, nonempty_lit=(1,)),
     ("Str", "isascii"): Fn("Pre.isascii", [STR], BOOL),
 }
 
@@ -516,9 +516,9 @@ class Translator:
         if e.ty == NONE:
             return FALSE
         if e.ty in (STR, BYTES) or e.ty.kind == "List":
-            return E(f"!{P(e)}.isEmpty", BOOL)
+            return self.negate(E(f"{P(e)}.isEmpty", BOOL, None, True))
         if e.ty == INT:
-            return E(f"{P(e)} != 0", BOOL)
+            return self.negate(E(f"{P(e)} == 0", BOOL))
         if e.ty.kind == "Opt":
             if e.var is not None:
                 raise NeedUnwrap(e.var, node)  # statement level splits first; reaching here is unguarded
@@ -606,10 +606,8 @@ class Translator:
             return E("[" + ", ".join(x.lean for x in items) + "]", Lst(t), None, True)
         if isinstance(n, ast.UnaryOp):
             if isinstance(n.op, ast.Not):
-                b = self.truthy(self.expr(n.operand, env), n.operand)
-                if b.const is not None:
-                    return bconst(not b.const)
-                return E(f"!{P(b)}", BOOL)
+                b = self.cond(n.operand, env)
+                return self.negate(b)
             if isinstance(n.op, ast.USub):
                 x = self.plain(self.expr(n.operand, env), n.operand)
                 if x.ty != INT:
@@ -623,7 +621,7 @@ class Translator:
         if isinstance(n, ast.BinOp):
             return self.binop(n, env)
         if isinstance(n, ast.IfExp):
-            c = self.truthy(self.expr(n.test, env), n.test)
+            c = self.cond(n.test, env)
             if c.const is True:
                 return self.expr(n.body, env)
             if c.const is False:
@@ -655,31 +653,49 @@ class Translator:
             return b
         self.bad(node, f"branches have different types {a} / {b}")
 
-    def boolop(self, n, env) -> E:
+    def negate(self, b: E) -> E:
+        if b.const is not None:
+            return bconst(not b.const)
+        inner = getattr(b, "neg_of", None)
+        if inner is not None:
+            return inner
+        r = E(f"!{P(b)}", BOOL)
+        r.neg_of = b
+        return r
+
+    def cond(self, n, env) -> E:
+        """translate `n` in a boolean context (if-test, operand of not / and / or)"""
+        if isinstance(n, ast.BoolOp):
+            return self.boolop(n, env, True)
+        return self.truthy(self.expr(n, env), n)
+
+    def boolop(self, n, env, bool_ctx=False) -> E:
+        """`and` / `or` in boolean meaning only (value semantics `a or b` of non-bools is outside
+        the subset: every operand must be a Bool after Python's truthiness conversion and the
+        context must use the result as a truth value - checked by the callers through the type)"""
         is_or = isinstance(n.op, ast.Or)
         acc = []
         for v in n.values:
-            b = self.truthy(self.expr(v, env), v)
-            src_ty_ok = True
+            if bool_ctx:
+                b = self.cond(v, env)
+            else:
+                x = self.expr(v, env)
+                if x.ty != BOOL:
+                    # `a or b` where a is not a bool returns a itself: only allowed in a boolean context
+                    self.bad(n, "`and` / `or` over non-bool operands outside a boolean context")
+                b = x
             if b.const is not None:
                 if b.const == is_or:
                     # `x or True` / `x and False`: Python stops here; the operands before are pure
                     return bconst(is_or)
                 continue  # neutral element
             acc.append(b)
-            del src_ty_ok
-        for v in n.values:
-            # value semantics (`a or b` returning a non-bool) is outside the subset
-            pass
         if not acc:
             return bconst(not is_or)
         if len(acc) == 1:
             return acc[0]
         op = " || " if is_or else " && "
         return E(op.join(P(x) for x in acc), BOOL)
-
-    def boolop_operand_types_ok(self, n, env):
-        return True
 
     def compare(self, n, env) -> E:
         operands = [n.left] + list(n.comparators)
@@ -720,16 +736,19 @@ class Translator:
             a = val(i)
             if isinstance(rn, (ast.Tuple, ast.Set, ast.List)):
                 a = self.plain(a, ln)
-                alts = []
+                alts, items = [], []
                 for item in rn.elts:
                     x = self.plain(self.expr(item, env), item)
                     if x.ty != a.ty:
                         self.bad(node, f"`in` over a literal of {x.ty} for a {a.ty}")
                     alts.append(f"{P(a)} == {P(x)}")
+                    items.append(x.lean)
                 if not alts:
                     r = FALSE
-                else:
+                elif a.atomic:
                     r = E(" || ".join(alts), BOOL, None, False)
+                else:
+                    r = E(f"[{', '.join(items)}].contains {P(a)}", BOOL)
             else:
                 b = self.plain(val(i + 1), rn)
                 a = self.plain(a, ln)
@@ -740,14 +759,14 @@ class Translator:
                 else:
                     self.bad(node, f"`in` between {a.ty} and {b.ty}")
             if neg:
-                return bconst(not r.const) if r.const is not None else E(f"!{P(r)}", BOOL)
+                return self.negate(r)
             return r
         a, b = val(i), val(i + 1)
         if isinstance(op, (ast.Eq, ast.NotEq)):
             neg = isinstance(op, ast.NotEq)
             r = self.equals(a, b, node)
             if neg:
-                return bconst(not r.const) if r.const is not None else E(f"!{P(r)}", BOOL)
+                return self.negate(r)
             return r
         sym = {ast.Lt: "<", ast.LtE: "≤", ast.Gt: ">", ast.GtE: "≥"}.get(type(op))
         if sym is None:
@@ -842,37 +861,24 @@ class Translator:
         d = dotted(f)
         if isinstance(f, ast.Name) and f.id in env:
             self.bad(n, "call of a local variable")
-        if isinstance(f, ast.Name) and f.id in ("len", "min", "max", "any", "all", "isinstance", "bool", "str", "int"):
+        if isinstance(f, ast.Name) and f.id in ("len", "min", "max", "any", "all", "isinstance", "bool", "str"):
             return None
-        if d is not None and d in self.spec.calls:
-            return self.spec.calls[d], list(n.args)
+        if d is not None:
+            root = d.split(".")[0]
+            known_value = root in env or any(d.startswith(c + ".") for c in list(env) + list(self.spec.consts))
+            if not known_value:
+                if d in self.spec.calls:
+                    return self.spec.calls[d], list(n.args)
+                if d in FUNCS:
+                    return FUNCS[d], list(n.args)
+                self.bad(n, f"call of {d!r} is not in py2lean's tables")
         if isinstance(f, ast.Attribute):
-            root = f.value
-            # method of a typed local receiver?
-            recv_is_local = True
-            r = root
-            while isinstance(r, (ast.Attribute, ast.Call, ast.Subscript)):
-                r = r.value if not isinstance(r, ast.Call) else r.func
-            if isinstance(r, ast.Name) and r.id not in env and dotted(root) not in env and dotted(root) not in self.spec.consts:
-                recv_is_local = isinstance(root, (ast.Call, ast.Subscript)) and self._rooted_in_env(root, env)
-            if isinstance(root, ast.Constant):
-                recv_is_local = True
-            if recv_is_local:
-                recv = self.plain(self.expr(root, env), root)
-                key = (recv.ty.kind, f.attr)
-                if key in METHODS:
-                    fn = METHODS[key]
-                    return fn, [root] + list(n.args)
-                self.bad(n, f"method {f.attr!r} of a {recv.ty} is not in py2lean's METHODS table")
-        if d is not None and d in FUNCS:
-            return FUNCS[d], list(n.args)
-        self.bad(n, f"call of {d or '<expression>'!r} is not in py2lean's tables")
-
-    def _rooted_in_env(self, node, env):
-        for x in ast.walk(node):
-            if isinstance(x, ast.Name) and x.id in env:
-                return True
-        return False
+            recv = self.plain(self.expr(f.value, env), f.value)
+            key = (recv.ty.kind, f.attr)
+            if key in METHODS:
+                return METHODS[key], [f.value] + list(n.args)
+            self.bad(n, f"method {f.attr!r} of a {recv.ty} is not in py2lean's METHODS table")
+        self.bad(n, "unsupported call")
 
     def call(self, n, env, bound=None) -> E:
         res = self.resolve_call(n, env)
@@ -886,17 +892,14 @@ class Translator:
     def apply(self, fn: Fn, args, n, env) -> E:
         if len(args) != len(fn.params):
             self.bad(n, f"{fn.lean} expects {len(fn.params)} arguments, the call has {len(args)}")
-        out = []
-        for i, (a, t) in enumerate(zip(args, fn.params)):
-            x = self.expr(a, env) if isinstance(a, ast.AST) else a
-            if i in fn.nonempty_lit or (i - 1) in fn.nonempty_lit and False:
-                pass
-            out.append(P(self.coerce(x, t, n)))
-        # literal constraints are on the *Python* arguments (methods: receiver is params[0])
         for i in fn.nonempty_lit:
-            a = args[i + (len(args) - len(n.args))] if isinstance(n, ast.Call) else args[i]
+            a = args[i]
             if not (isinstance(a, ast.Constant) and isinstance(a.value, (str, bytes)) and len(a.value) > 0):
-                self.bad(n, f"argument {i} of {fn.lean} must be a non-empty literal (Python raises ValueError for an empty separator)")
+                self.bad(n, f"argument {i} of {fn.lean} must be a non-empty literal (Python raises ValueError for an empty one)")
+        out = []
+        for a, t in zip(args, fn.params):
+            x = self.expr(a, env)
+            out.append(P(self.coerce(x, t, n)))
         extra = "".join(" " + x for x in fn.extra)
         return E(f"{fn.lean}{extra} " + " ".join(out) if out else f"{fn.lean}{extra}", fn.result)
 
@@ -929,7 +932,7 @@ class Translator:
             v = g.generators[0].target.id
             env2 = dict(env)
             env2[v] = Var(lean_name(v), it.ty.args[0])
-            body = self.truthy(self.expr(g.elt, env2), g.elt)
+            body = self.cond(g.elt, env2)
             return E(f"{P(it)}.{name} fun {lean_name(v)} => {body.lean}", BOOL)
         if name == "isinstance":
             if len(n.args) != 2 or not isinstance(n.args[1], ast.Name) or not isinstance(n.args[0], ast.Name):
@@ -945,7 +948,7 @@ class Translator:
         if name == "bool":
             if len(n.args) != 1:
                 self.bad(n, "bool arity")
-            return self.truthy(self.expr(n.args[0], env), n.args[0])
+            return self.cond(n.args[0], env)
         if name == "str":
             if len(n.args) != 1:
                 self.bad(n, "str arity")
@@ -1228,11 +1231,11 @@ class Translator:
     def stmt_if(self, s, env, loop, k):
         def body(env1):
             def inner(env2):
-                c = self.truthy(self.expr(s.test, env2), s.test)
+                c = self.cond(s.test, env2)
                 if c.const is True:
-                    return self.block(s.body, env2, loop, k)
+                    return ["--   (test decided here: true)"] + self.block(s.body, env2, loop, k)
                 if c.const is False:
-                    return self.block(s.orelse, env2, loop, k)
+                    return ["--   (test decided here: false)"] + self.block(s.orelse, env2, loop, k)
                 a = self.block(s.body, env2, loop, k)
                 b = self.block(s.orelse, env2, loop, k)
                 return [f"if {c.lean} then"] + ind(a) + ["else"] + ind(b)
@@ -1313,7 +1316,7 @@ class Translator:
                 if env1[nm].ty == NONE:
                     self.bad(s, f"loop state {nm!r} is None before the loop: its type inside the loop is unknown")
             state_tys = [env1[nm].ty for nm in state]
-            used = free_names(s.body) | free_names([s.iter])
+            used = free_names(s.body)
             captured = [nm for nm in env1 if nm in used and nm not in state and nm not in targets and env1[nm].ty != NONE]
             self.nloops += 1
             fname = f"{self.spec.name}.loop{self.nloops}"
@@ -1348,7 +1351,7 @@ class Translator:
             st_ty = "Unit" if not state else " × ".join(lean_ty(t, False) for t in state_tys)
             binders = "".join(f" ({nm} : {ty})" for nm, ty in self.spec.opaque)
             binders += "".join(f" ({env1[nm].lean} : {lean_ty(env1[nm].ty)})" for nm in captured)
-            sig = " → ".join([f"List {lean_ty(elt, False)}"] + [lean_ty(t, False) for t in state_tys] + [f"Pre.Loop ({self.ret_lean_ty}) ({st_ty})"])
+            sig = " → ".join([f"List {lean_ty(elt, False)}"] + [lean_ty(t, False) for t in state_tys] + [f"Pre.Loop {_par(self.ret_lean_ty)} {_par(st_ty)}"])
             st_pats = "".join(", " + env1[nm].lean for nm in state)
             aux = [f"/-- the `{self.srcline(s)}` loop of `{self.spec.qualname}`: `.ret r` = the function returned `r` inside the loop, `.fall st` = the loop ended with loop state `st` -/", f"def {fname}{binders} : {sig}"]
             aux.append(f"  | []{st_pats} => .fall {self.state_tuple(lc, env_b, s)}")
@@ -1399,6 +1402,10 @@ def _is_atomic_text(s: str) -> bool:
                 return False
         return True
     return all(ch.isalnum() or ch in "_.'" for ch in s)
+
+
+def _par(t: str) -> str:
+    return t if _is_atomic_text(t) else f"({t})"
 
 
 def dotted(n):
